@@ -158,6 +158,7 @@ type fnCfg struct {
 	pure        bool     // emit a non-monadic definition (single return expression, nothing can panic)
 	ifaces      map[string]map[string]cbCfg // interface-typed parameters: method name -> callback kind
 	idioms      []idiom  // recognised statement templates with their Lean emission
+	inout       map[string]bool // slice parameters written through (returned like pointer parameters)
 	nonNilRecv  bool     // `recv == nil` is False (the model is about non-nil receivers)
 	extra       string   // extra leading binders shared by the file (e.g. the re-allocation oracle)
 	extraArgs   string   // the corresponding arguments at call sites
